@@ -94,56 +94,8 @@ pub fn run(tier: Tier) -> ! {
             pool.push((c.desc, c.spec));
         }
     }
-    // tag biases / tag weight vectors with trailing zeros and all zeros, for class counts on both
-    // sides of the fixed(8)/variable switch (a length-changing encoding would break the score layout)
-    for shape in [vec![2usize], vec![3, 2], vec![8], vec![9], vec![5, 5], vec![2, 9], vec![3, 3, 3]] {
-        for zero_pattern in 0..4u8 {
-            let mut m = crate::c06::boundary_part(0, 2);
-            let pool6 = crate::c06::ngram_pool(2);
-            let mut tm = crate::c06::tag_model("a", &shape, &[pool6[0].clone(), pool6[3].clone(), pool6[7].clone()], 0, 77);
-            let z = |v: &mut Vec<i32>| match zero_pattern {
-                0 => v.iter_mut().for_each(|x| *x = 0),
-                1 => {
-                    if let Some(l) = v.last_mut() {
-                        *l = 0
-                    }
-                }
-                2 => {
-                    let n = v.len();
-                    v.iter_mut().skip(n / 2).for_each(|x| *x = 0)
-                }
-                _ => {
-                    if let Some(f) = v.first_mut() {
-                        *f = 0
-                    }
-                }
-            };
-            z(&mut tm.bias);
-            for d in tm.char_ngram_model.iter_mut() {
-                for w in d.weights.iter_mut() {
-                    z(&mut w.weights);
-                }
-            }
-            for d in tm.type_ngram_model.iter_mut() {
-                for w in d.weights.iter_mut() {
-                    z(&mut w.weights);
-                }
-            }
-            m.tag_models.push(tm);
-            m.tag_models.push(crate::c06::tag_model("ab", &[2, 2], &[pool6[2].clone()], 1, 78));
-            pool.push((format!("tag-zeros shape={shape:?} pattern={zero_pattern}"), m));
-        }
-    }
-    // all-zero and trailing-zero weight vectors (the encoder trims trailing zeros of fixed vectors)
-    for w in [vec![0, 0, 0, 0, 0], vec![0, 0, 7, 0, 0], vec![0, 0, 0, 0, 9], vec![5, 0, 0, 0, 0]] {
-        let mut m = ModelSpec { bias: 1, char_window_size: 2, type_window_size: 2, ..Default::default() };
-        m.char_ngram_model.push(crate::mirror::NgramData { ngram: "a".into(), weights: w[..4].to_vec() });
-        m.type_ngram_model.push(crate::mirror::NgramData { ngram: vec![2], weights: w[1..].to_vec() });
-        m.dict_model.push(crate::mirror::WordWeightRecord { word: "abab".into(), weights: w.clone(), comment: "".into() });
-        pool.push((format!("zeros {w:?}"), m.clone()));
-        crate::models::attach_tags(&mut m);
-        pool.push((format!("zeros+tags {w:?}"), m));
-    }
+    pool.extend(crate::c06::zero_tag_family());
+    pool.extend(crate::c01::edge_family());
     chk.set("models", json!(pool.len()));
     chk.set("texts", json!(texts.len()));
     pool.par_iter().enumerate().for_each(|(i, (desc, spec))| {
